@@ -1,5 +1,6 @@
 """C17 - only the library's own errors escape, and results are real numbers."""
 from __future__ import annotations
+import os
 from hypothesis import given, strategies as st
 from harness import strategies as S
 from harness import boundary as BD
@@ -35,6 +36,9 @@ def classify(out):
 def check(stats, m, env, sub="escape", info=None, symbolic=True):
     m = safe(m)
     stats.case()
+    if os.environ.get("VERIF_BREADCRUMB"):
+        with open(f"/tmp/breadcrumb-{os.getpid()}.txt", "w") as f:
+            f.write(M.text(m) + "\n" + M.point_text(env) + "\n")
     vs = M.variables(m)
     r, ctx = DV.value_context(m, {k: v for k, v in env.items()}) if all(v in env for v in vs) else (None, None)
     incomplete = r is None
